@@ -5,10 +5,12 @@ package main
 import (
 	"fmt"
 	"os"
+	"strings"
 
 	"golang.org/x/tools/go/ssa"
 
 	"bvcheck/internal/load"
+	"bvcheck/internal/rules"
 	"bvcheck/internal/ssax"
 )
 
@@ -20,6 +22,18 @@ func main() {
 	}
 	if len(os.Args) == 3 && os.Args[1] == "-switches" {
 		listSwitches(p, os.Args[2])
+		return
+	}
+	if len(os.Args) >= 4 && os.Args[1] == "-dropped" {
+		droppedErrors(p, strings.Split(os.Args[2], ","), os.Args[3:])
+		return
+	}
+	if len(os.Args) >= 3 && os.Args[1] == "-lockdisc" {
+		rules.LockDiscovery(p, os.Args[2:])
+		return
+	}
+	if len(os.Args) >= 4 && os.Args[1] == "-sibdiff" {
+		sibDiff(p, os.Args[2:])
 		return
 	}
 	if len(os.Args) == 3 && os.Args[1] == "-calls" {
